@@ -150,6 +150,86 @@ Proof. intros H. unfold read_file. now rewrite stat_nolink. Qed.
 Lemma lf_beq_self o e1 : C02.lf_beq (MkLF (lf_base o) (lf_mounts o) (lf_exports o) e1) o = true.
 Proof. destruct o as [b ms es er]. apply lf_beq_refl'. Qed.
 
+(* ------------------------------------------------------------------ a sequence of layerconfig rewrites *)
+Inductive written : list (bytes * bytes) -> fsT -> fsT -> Prop :=
+| wrt_nil g : written [] g g
+| wrt_snoc L g g' k X g'' : written L g g' -> plain k -> cfg_written Lc k X g' g'' ->
+    written (L ++ [(k, X)]) g g''.
+
+Lemma cfgp_ne_tmpp k j : plain k -> plain j -> cfgp Lc k <> tmpp Lc j.
+Proof.
+  intros Pk Pj E. unfold cfgp, tmpp in E. apply pa_inj in E.
+  - apply app_inv_head in E. pose proof (f_equal (@tl _) E) as E2. cbn [tl] in E2.
+    pose proof (f_equal (fun x => length (hd [] x)) E2) as E3. vm_compute in E3. discriminate.
+  - apply plains_dirty; [exact HLc|exact Pk|constructor; [apply plain_lcf|constructor]].
+  - apply plains_dirty; [exact HLc|exact Pj|constructor; [apply plain_lcf_tmp|constructor]].
+Qed.
+Lemma tmpp_inj k j : plain k -> plain j -> tmpp Lc k = tmpp Lc j -> k = j.
+Proof.
+  intros Pk Pj E. unfold tmpp in E. apply pa_inj in E.
+  - apply app_inv_head in E. exact (f_equal (hd []) E).
+  - apply plains_dirty; [exact HLc|exact Pk|constructor; [apply plain_lcf_tmp|constructor]].
+  - apply plains_dirty; [exact HLc|exact Pj|constructor; [apply plain_lcf_tmp|constructor]].
+Qed.
+
+Lemma wrt_plain L g g' : written L g g' -> forall k X, In (k, X) L -> plain k.
+Proof.
+  induction 1 as [g|L g g' k X g'' HW IH Pk HC]; intros k0 X0 Hin; [destruct Hin|].
+  apply in_app_or in Hin as [Hin|[Hin|[]]]; [eapply IH; eauto|]. now injection Hin as <- _.
+Qed.
+Lemma wrt_get_other L g g' q : written L g g' ->
+  (forall k X, In (k, X) L -> q <> cfgp Lc k /\ q <> tmpp Lc k) -> fs_get g' q = fs_get g q.
+Proof.
+  induction 1 as [g|L g g' k X g'' HW IH Pk HC]; intros Hq; [reflexivity|].
+  destruct (Hq k X) as [Q1 Q2]; [apply in_or_app; right; now left|].
+  rewrite (cw_other _ _ _ _ _ HC q Q1 Q2). apply IH. intros k0 X0 Hin. apply (Hq k0 X0). apply in_or_app. now left.
+Qed.
+Lemma wrt_get_cfg L g g' k0 X0 : written L g g' -> In (k0, X0) L -> (forall X', In (k0, X') L -> X' = X0) ->
+  fs_get g' (cfgp Lc k0) = Some (File X0).
+Proof.
+  induction 1 as [g|L g g' k X g'' HW IH Pk HC]; intros Hin Hu; [destruct Hin|].
+  destruct (beq k k0) eqn:E.
+  - apply beq_true in E. subst k0. rewrite <- (Hu X); [apply (cw_cfg _ _ _ _ _ HC)|apply in_or_app; right; now left].
+  - apply beq_false in E. apply in_app_or in Hin as [Hin|[Hin|[]]]; [|injection Hin as -> _; congruence].
+    pose proof (wrt_plain _ _ _ HW _ _ Hin) as Pk0.
+    rewrite (cw_other _ _ _ _ _ HC).
+    + apply IH; [exact Hin|]. intros X' H'. apply Hu. apply in_or_app. now left.
+    + intros E2. apply E. symmetry. apply (cfgp_inj Lc HLc k0 k Pk0 Pk E2).
+    + now apply cfgp_ne_tmpp.
+Qed.
+Lemma wrt_in L g g' q nd : written L g g' -> In (q, nd) g' ->
+  (exists k X, In (k, X) L /\ q = cfgp Lc k) \/ (In (q, nd) g /\ forall k X, In (k, X) L -> q <> tmpp Lc k).
+Proof.
+  induction 1 as [g|L g g' k X g'' HW IH Pk HC]; intros Hin; [right; split; [exact Hin|intros ? ? []]|].
+  apply (cw_in _ _ _ _ _ HC) in Hin as [->|[Hq Hin]].
+  - left. exists k, X. split; [apply in_or_app; right; now left|reflexivity].
+  - destruct (IH Hin) as [(k0 & X0 & H1 & H2)|[H1 H2]].
+    + left. exists k0, X0. split; [apply in_or_app; now left|exact H2].
+    + right. split; [exact H1|]. intros k0 X0 H0. apply in_app_or in H0 as [H0|[H0|[]]]; [eapply H2; eauto|].
+      now injection H0 as <- _.
+Qed.
+Lemma wrt_tmp L g g' : written L g g' -> forall k0, plain k0 ->
+  ((exists X0, In (k0, X0) L) -> tmp_ok Lc k0 g) /\
+  ((forall X0, ~ In (k0, X0) L) -> fs_get g' (tmpp Lc k0) = fs_get g (tmpp Lc k0)).
+Proof.
+  induction 1 as [g|L g g' k X g'' HW IH Pk HC]; intros k0 Pk0.
+  - split; [intros (X0 & [])|reflexivity].
+  - destruct (IH k0 Pk0) as [I1 I2]. split.
+    + intros (X0 & Hin). apply in_app_or in Hin as [Hin|[Hin|[]]]; [apply I1; eauto|]. injection Hin as -> _.
+      (* the first time k0 is written its temporary name is as it was at the start *)
+      assert (D : (exists X1, In (k0, X1) L) \/ (forall X1, ~ In (k0, X1) L)).
+      { clear. induction L as [|[a b] L IHL]; [right; intros ? []|].
+        destruct (beq a k0) eqn:E; [apply beq_true in E; subst a; left; exists b; now left|].
+        apply beq_false in E. destruct IHL as [(X1 & H1)|H1]; [left; exists X1; now right|].
+        right. intros X1 [H2|H2]; [injection H2 as -> _; congruence|eapply H1; eauto]. }
+      destruct D as [D|D]; [now apply I1|].
+      pose proof (cw_tmp _ _ _ _ _ HC) as Hok. unfold tmp_ok in *. now rewrite (I2 D) in Hok.
+    + intros Hn. rewrite (cw_other _ _ _ _ _ HC).
+      * apply I2. intros X0 H0. apply (Hn X0). apply in_or_app. now left.
+      * intros E. symmetry in E. now apply (cfgp_ne_tmpp k k0 Pk Pk0) in E.
+      * intros E. apply (tmpp_inj k0 k Pk0 Pk) in E. subst k0. apply (Hn X). apply in_or_app. right. now left.
+Qed.
+
 Section Final.
 Variables (f0 f1 : fsT) (kids : list layer) (l : layer).
 Hypothesis ND : NoDup (map fst f0).
@@ -204,14 +284,14 @@ Proof.
   injection Eld as <-. exists content. cbn. repeat split; reflexivity.
 Qed.
 
-Definition KL : list (bytes * bytes) := map (fun k => (cfgp Lc (l_name k), chunks_of (set_base k new))) kids.
+Definition KLn (ks : list layer) : list (bytes * bytes) := map (fun k => (l_name k, chunks_of (set_base k new))) ks.
 Definition Xn : bytes := chunks_of (set_name_path l new (lp Lc new)).
 Definition F2 : fsT := mv (lp Lc old) (lp Lc new) f1.
-Definition F3 : fsT := foldwr KL F2.
-Definition F4 : fsT := wr (cfgp Lc new) Xn F3.
+(* the final tree: the children's layerconfigs, then the renamed layer's own, rewritten on top of
+   the tree with the directory moved; a left-over temporary file may be consumed by each rewrite *)
+Variable F4 : fsT.
+Hypothesis HW : written (KLn kids ++ [(new, Xn)]) F2 F4.
 
-Lemma KL_in p X : In (p, X) KL -> exists k, In k kids /\ p = cfgp Lc (l_name k) /\ X = chunks_of (set_base k new).
-Proof. unfold KL. intros H. apply in_map_iff in H as (k & E & Hk). injection E as <- <-. eauto. Qed.
 Lemma cfgp_not_under x j : plain x -> plain j -> j <> x -> at_or_under (lp Lc x) (cfgp Lc j) = false.
 Proof.
   intros Px Pj Hj. unfold cfgp. apply (not_under_other Lc HLc x j [lcf] Px Pj); [|exact Hj].
@@ -224,46 +304,66 @@ Proof.
   - apply plains_dirty; auto. constructor; [apply plain_lcf|constructor].
   - now apply plains_dirty.
 Qed.
+Lemma tmpp_ne x j r : plain x -> plain j -> plains r -> j <> x -> tmpp Lc j <> pa (Lc ++ x :: r).
+Proof.
+  intros Px Pj Pr Hj E. unfold tmpp in E. apply pa_inj in E.
+  - apply app_inv_head in E. pose proof (f_equal (hd []) E) as E2. cbn [hd] in E2. congruence.
+  - apply plains_dirty; auto. constructor; [apply plain_lcf_tmp|constructor].
+  - now apply plains_dirty.
+Qed.
+Lemma Plcf : plains [lcf]. Proof. constructor; [apply plain_lcf|constructor]. Qed.
+Lemma lc_tmp_last cs : C02.is_lc_tmp (pa (cs ++ [lcf ++ tmp_suffix])) = true.
+Proof. unfold C02.is_lc_tmp. rewrite pathbase_pa by apply plain_lcf_tmp. apply beq_refl. Qed.
+Lemma lc_tmp_tmpp k : C02.is_lc_tmp (tmpp Lc k) = true.
+Proof. unfold tmpp. change (Lc ++ [k; lcf ++ tmp_suffix]) with (Lc ++ [k] ++ [lcf ++ tmp_suffix]). rewrite app_assoc. apply lc_tmp_last. Qed.
+
+Lemma KLall_in k0 X0 : In (k0, X0) (KLn kids ++ [(new, Xn)]) ->
+  (k0 = new /\ X0 = Xn) \/ (exists k, In k kids /\ k0 = l_name k /\ X0 = chunks_of (set_base k new)).
+Proof.
+  intros H. apply in_app_or in H as [H|[H|[]]].
+  - right. unfold KLn in H. apply in_map_iff in H as (k & E & Hk). injection E as <- <-. eauto.
+  - left. injection H as <- <-. now split.
+Qed.
 
 (* entries of the final tree *)
 Lemma F4_in q nd : In (q, nd) F4 ->
   (q = cfgp Lc new) \/
   (exists k, In k kids /\ q = cfgp Lc (l_name k)) \/
   (at_or_under (lp Lc old) q = false /\ at_or_under (lp Lc new) q = false /\ In (q, nd) f1) \/
-  (exists r, plains r /\ q = pa (Lc ++ new :: r) /\ q <> cfgp Lc new /\ In (pa (Lc ++ old :: r), nd) f1).
+  (exists r, plains r /\ q = pa (Lc ++ new :: r) /\ In (pa (Lc ++ old :: r), nd) f1).
 Proof.
-  intros H. unfold F4 in H. apply In_wr in H as [[H1 H2]|[-> _]]; [|now left].
-  unfold F3 in H2. apply In_foldwr in H2 as [H2|(X & H2 & _)].
-  - apply (mv_in f1 Hc1 Hfree) in H2 as [H2|(r & Pr & -> & H2)]; [right; right; now left|].
+  intros H. apply (wrt_in _ _ _ _ _ HW) in H as [(k0 & X0 & H1 & ->)|[H1 _]].
+  - apply KLall_in in H1 as [[-> _]|(k & Hk & -> & _)]; [now left|right; left; eauto].
+  - apply (mv_in f1 Hc1 Hfree) in H1 as [H1|(r & Pr & -> & H1)]; [right; right; now left|].
     right; right; right. exists r. auto.
-  - apply KL_in in H2 as (k & Hk & -> & _). right; left. eauto.
 Qed.
-Lemma Plcf : plains [lcf]. Proof. constructor; [apply plain_lcf|constructor]. Qed.
 
 (* lookups in the final tree *)
 Lemma F4_get_cn : fs_get F4 (cfgp Lc new) = Some (File Xn).
-Proof. unfold F4. rewrite fs_get_wr. now rewrite beq_refl. Qed.
-Lemma F4_get_F3 q : q <> cfgp Lc new -> fs_get F4 q = fs_get F3 q.
-Proof. intros H. unfold F4. rewrite fs_get_wr. destruct (beq (cfgp Lc new) q) eqn:E; [apply beq_true in E; congruence|reflexivity]. Qed.
-Lemma F3_get_F2 q : (forall k, In k kids -> q <> cfgp Lc (l_name k)) -> fs_get F3 q = fs_get F2 q.
 Proof.
-  intros H. unfold F3. apply fs_get_foldwr_other. intros p X Hin. apply KL_in in Hin as (k & Hk & -> & _).
-  intros E. now apply (H k Hk).
+  apply (wrt_get_cfg _ _ _ _ _ HW); [apply in_or_app; right; now left|].
+  intros X' H. apply KLall_in in H as [[_ ->]|(k & Hk & E & _)]; [reflexivity|].
+  destruct (Hkids k Hk) as (_ & _ & Hkn & _). congruence.
 Qed.
-Lemma F3_get_kid k : In k kids -> fs_get F3 (cfgp Lc (l_name k)) = Some (File (chunks_of (set_base k new))).
+Lemma F4_get_kid k : In k kids -> fs_get F4 (cfgp Lc (l_name k)) = Some (File (chunks_of (set_base k new))).
 Proof.
-  intros Hk. unfold F3. apply fs_get_foldwr_in.
-  - unfold KL. apply in_map_iff. exists k. split; [reflexivity|exact Hk].
-  - intros X' Hin. apply KL_in in Hin as (k' & Hk' & E & ->).
-    destruct (Hkids k Hk) as (Pk & _ & _ & _ & l0 & _ & _ & _ & M1 & M2).
-    destruct (Hkids k' Hk') as (Pk' & _ & _ & _ & l0' & H0' & N' & _ & M1' & M2').
-    destruct (Hkids k Hk) as (_ & _ & _ & _ & l1 & H1 & N1 & _ & M3 & M4).
-    apply cfgp_inj in E; [|exact HLc|exact Pk|exact Pk'].
-    (* both come from the layer of that name on disk *)
-    destruct (m0_layer l1 H1) as (_ & _ & c1 & G1 & _ & A1 & A2).
-    destruct (m0_layer l0' H0') as (_ & _ & c2 & G2 & _ & B1 & B2).
-    rewrite N1 in G1. rewrite N', <- E in G2. rewrite G1 in G2. injection G2 as <-.
-    unfold chunks_of. cbn [set_base l_base l_mounts l_exports]. congruence.
+  intros Hk. apply (wrt_get_cfg _ _ _ _ _ HW).
+  - apply in_or_app. left. unfold KLn. apply in_map_iff. exists k. split; [reflexivity|exact Hk].
+  - intros X' Hin. apply KLall_in in Hin as [[E _]|(k' & Hk' & E & ->)].
+    + destruct (Hkids k Hk) as (_ & _ & Hkn & _). congruence.
+    + destruct (Hkids k' Hk') as (Pk' & _ & _ & _ & l0' & H0' & N' & _ & M1' & M2').
+      destruct (Hkids k Hk) as (Pk & _ & _ & _ & l1 & H1 & N1 & _ & M3 & M4).
+      (* both come from the layer of that name on disk *)
+      destruct (m0_layer l1 H1) as (_ & _ & c1 & G1 & _ & A1 & A2).
+      destruct (m0_layer l0' H0') as (_ & _ & c2 & G2 & _ & B1 & B2).
+      rewrite N1 in G1. rewrite N', <- E in G2. rewrite G1 in G2. injection G2 as <-.
+      unfold chunks_of. cbn [set_base l_base l_mounts l_exports]. congruence.
+Qed.
+Lemma F4_get_F2 q : q <> cfgp Lc new -> q <> tmpp Lc new ->
+  (forall k, In k kids -> q <> cfgp Lc (l_name k) /\ q <> tmpp Lc (l_name k)) -> fs_get F4 q = fs_get F2 q.
+Proof.
+  intros H1 H2 H3. apply (wrt_get_other _ _ _ _ HW). intros k0 X0 Hin.
+  apply KLall_in in Hin as [[-> _]|(k & Hk & -> & _)]; [now split|now apply H3].
 Qed.
 
 Lemma conj1 : existsb (fun e => at_or_under (lp Lc old) (fst e)) F4 = false.
@@ -301,23 +401,33 @@ Proof.
 Qed.
 
 Lemma conj2 : forallb (fun e => if at_or_under (lp Lc old) (fst e) && negb (beq (fst e) (cfgp Lc old))
+                                   && negb (C02.is_lc_tmp (fst e))
                        then opt_beq node_beq (fs_get F4 (lp Lc new ++ rel_suffix (lp Lc old) (fst e))) (Some (snd e))
                        else true) f0 = true.
 Proof.
   apply forallb_forall. intros [p nd] Hin. cbn [fst snd].
-  destruct (at_or_under (lp Lc old) p) eqn:Hau; [|reflexivity]. destruct (beq p (cfgp Lc old)) eqn:Ecf; [reflexivity|]. cbn [negb andb].
+  destruct (at_or_under (lp Lc old) p) eqn:Hau; [|reflexivity]. destruct (beq p (cfgp Lc old)) eqn:Ecf; [reflexivity|].
+  destruct (C02.is_lc_tmp p) eqn:Etmp; [reflexivity|]. cbn [negb andb].
   apply beq_false in Ecf. destruct (old_entry p (Hc0 _ _ Hin) Hau) as (r & Pr & ->). rewrite (target_of r Pr).
   assert (Hr : r <> [lcf]) by (intros ->; now apply Ecf).
-  rewrite F4_get_F3.
-  2:{ unfold cfgp. intros E. apply pa_inj in E.
-      - apply app_inv_head in E. injection E as E. congruence.
-      - now apply plains_dirty.
-      - apply plains_dirty; [exact HLc|exact Pnw|exact Plcf]. }
-  rewrite F3_get_F2.
-  2:{ intros k Hk E. destruct (Hkids k Hk) as (Pk & _ & Hkn & _). symmetry in E. now apply (cfgp_ne new (l_name k) r Pnw Pk Pr Hkn) in E. }
-  unfold F2. rewrite (mv_get_new f1 Hc1 Hfree r Pr).
-  change (Lc ++ old :: r) with (Lc ++ (old :: r)). rewrite f1_get by (constructor; assumption).
-  rewrite (nodup_fs_get f0 _ nd ND Hin). cbn [opt_beq]. apply node_beq_refl.
+  assert (Hr2 : r <> [lcf ++ tmp_suffix]).
+  { intros ->. change (Lc ++ [old; lcf ++ tmp_suffix]) with (Lc ++ [old] ++ [lcf ++ tmp_suffix]) in Etmp.
+    rewrite app_assoc, lc_tmp_last in Etmp. discriminate. }
+  rewrite F4_get_F2.
+  - unfold F2. rewrite (mv_get_new f1 Hc1 Hfree r Pr).
+    change (Lc ++ old :: r) with (Lc ++ (old :: r)). rewrite f1_get by (constructor; assumption).
+    rewrite (nodup_fs_get f0 _ nd ND Hin). cbn [opt_beq]. apply node_beq_refl.
+  - unfold cfgp. intros E. apply pa_inj in E.
+    + apply app_inv_head in E. injection E as E. congruence.
+    + now apply plains_dirty.
+    + apply plains_dirty; [exact HLc|exact Pnw|exact Plcf].
+  - unfold tmpp. intros E. apply pa_inj in E.
+    + apply app_inv_head in E. pose proof (f_equal (@tl _) E) as E2. cbn [tl] in E2. congruence.
+    + now apply plains_dirty.
+    + apply plains_dirty; [exact HLc|exact Pnw|constructor; [apply plain_lcf_tmp|constructor]].
+  - intros k Hk. destruct (Hkids k Hk) as (Pk & _ & Hkn & _). split; intros E; symmetry in E.
+    + now apply (cfgp_ne new (l_name k) r Pnw Pk Pr Hkn) in E.
+    + now apply (tmpp_ne new (l_name k) r Pnw Pk Pr Hkn) in E.
 Qed.
 
 Lemma conj3 : forallb (fun e => if at_or_under (lp Lc new) (fst e) && negb (beq (fst e) (cfgp Lc new))
@@ -326,7 +436,7 @@ Lemma conj3 : forallb (fun e => if at_or_under (lp Lc new) (fst e) && negb (beq 
 Proof.
   apply forallb_forall. intros [q nd] Hin. cbn [fst snd].
   destruct (at_or_under (lp Lc new) q) eqn:Hau; [|reflexivity]. destruct (beq q (cfgp Lc new)) eqn:Ecf; [reflexivity|]. cbn [negb andb].
-  apply beq_false in Ecf. apply F4_in in Hin as [->|[(k & Hk & ->)|[(_ & H2 & _)|(r & Pr & -> & _ & H1)]]].
+  apply beq_false in Ecf. apply F4_in in Hin as [->|[(k & Hk & ->)|[(_ & H2 & _)|(r & Pr & -> & H1)]]].
   - congruence.
   - destruct (Hkids k Hk) as (Pk & _ & Hkn & _). rewrite (cfgp_not_under new _ Pnw Pk Hkn) in Hau. discriminate.
   - congruence.
@@ -371,7 +481,7 @@ Proof.
     pose proof (Hkids_all l' Hl' Ebo) as Hk. apply in_map_iff in Hk as (k & Ek & Hk).
     destruct (Hkids k Hk) as (_ & _ & _ & (_ & Mk & Ek') & l0 & H0 & N0 & _ & M1 & M2).
     assert (G4 : fs_get F4 (cfgp Lc (l_name l')) = Some (File (chunks_of (set_base k new)))).
-    { rewrite F4_get_F3 by exact Hcn. rewrite <- Ek. now apply F3_get_kid. }
+    { rewrite <- Ek. now apply F4_get_kid. }
     rewrite (lfile_at_file F4 _ _ G4). unfold chunks_of. cbn [set_base l_base l_mounts l_exports].
     rewrite layerfile_roundtrip; [|now right|exact Mk|exact Ek'].
     destruct (same_name_same l0 l' H0 Hl') as (_ & S1 & S2); [congruence|].
@@ -381,8 +491,9 @@ Proof.
     { intros k Hk E. destruct (Hkids k Hk) as (Pk & _ & _ & _ & l0 & H0 & N0 & B0 & _).
       apply cfgp_inj in E; auto. destruct (same_name_same l0 l' H0 Hl') as (S0 & _); [congruence|]. congruence. }
     assert (G4 : fs_get F4 (cfgp Lc (l_name l')) = Some (File content)).
-    { rewrite F4_get_F3 by exact Hcn. rewrite F3_get_F2 by exact Hnk. unfold F2.
-      rewrite (mv_get_other f1 Hc1); [|now apply cfgp_not_under|now apply cfgp_not_under].
+    { rewrite F4_get_F2; [|exact Hcn|now apply cfgp_ne_tmpp|].
+      2:{ intros k Hk. destruct (Hkids k Hk) as (Pk & _). split; [now apply Hnk|now apply cfgp_ne_tmpp]. }
+      unfold F2. rewrite (mv_get_other f1 Hc1); [|now apply cfgp_not_under|now apply cfgp_not_under].
       unfold cfgp. change (Lc ++ [l_name l'; lcf]) with (Lc ++ (l_name l' :: [lcf])).
       rewrite f1_get by (constructor; [exact Pn|exact Plcf]). exact G0. }
     rewrite (lfile_at_file F4 _ _ G4). destruct (read_layerfile content) as [b ms es er]. apply lf_beq_refl'.
@@ -390,13 +501,15 @@ Qed.
 
 Lemma conj6 : forallb (fun e =>
     if at_or_under (pa Lc) (fst e) && negb (at_or_under (lp Lc old) (fst e))
-       && negb (existsb (fun l' => beq (fst e) (layerconfig_path l')) m0)
+       && negb (existsb (fun l' => beq (fst e) (layerconfig_path l')) m0) && negb (C02.is_lc_tmp (fst e))
     then opt_beq node_beq (fs_get F4 (fst e)) (Some (snd e)) else true) f0 = true.
 Proof.
   apply forallb_forall. intros [p nd] Hin. cbn [fst snd].
   destruct (at_or_under (pa Lc) p) eqn:HauL; [|reflexivity].
   destruct (at_or_under (lp Lc old) p) eqn:HauA; [reflexivity|].
-  destruct (existsb (fun l' => beq p (layerconfig_path l')) m0) eqn:Ecfg; [reflexivity|]. cbn [negb andb].
+  destruct (existsb (fun l' => beq p (layerconfig_path l')) m0) eqn:Ecfg; [reflexivity|].
+  destruct (C02.is_lc_tmp p) eqn:Etmp; [reflexivity|]. cbn [negb andb].
+  assert (Hnt : forall k, p <> tmpp Lc k) by (intros k E; rewrite E, lc_tmp_tmpp in Etmp; discriminate).
   pose proof (Hc0 _ _ Hin) as Hp. apply clean_abs_repr in Hp as (ps & Pp & ->).
   apply at_or_under_pa in HauL as (r & ->); [|exact HLc|exact Pp].
   assert (Pr : plains r) by (apply plains_app in Pp; tauto).
@@ -408,7 +521,7 @@ Proof.
     destruct (m0_layer l0 H0) as (_ & Ecf & _).
     assert (existsb (fun l' => beq (pa (Lc ++ r)) (layerconfig_path l')) m0 = true); [|congruence].
     apply existsb_exists. exists l0. split; [exact H0|]. rewrite Ecf, N0, E. apply beq_refl. }
-  rewrite F4_get_F3 by exact Hcn. rewrite F3_get_F2 by exact Hnk. unfold F2.
+  rewrite F4_get_F2; [|exact Hcn|apply Hnt|intros k Hk; split; [now apply Hnk|apply Hnt]]. unfold F2.
   destruct (at_or_under (lp Lc new) (pa (Lc ++ r))) eqn:HauB.
   - destruct (new_entry _ (Hc0 _ _ Hin) HauB) as (r' & Pr' & E). rewrite E in *.
     change (Lc ++ new :: r') with (Lc ++ (new :: r')) in Hin.
@@ -504,70 +617,109 @@ Proof.
   - apply plains_dirty; [exact HLc|exact Pk|constructor; [apply plain_lcf_tmp|constructor]].
 Qed.
 
+Lemma assoc_dec (L : list (bytes * bytes)) k0 : (exists X, In (k0, X) L) \/ (forall X, ~ In (k0, X) L).
+Proof.
+  induction L as [|[a b] L IHL]; [right; intros ? []|].
+  destruct (beq a k0) eqn:E; [apply beq_true in E; subst a; left; exists b; now left|].
+  apply beq_false in E. destruct IHL as [(X1 & H1)|H1]; [left; exists X1; now right|].
+  right. intros X1 [H2|H2]; [injection H2 as -> _; congruence|eapply H1; eauto].
+Qed.
+
 Section Run.
 Variables (f0 f1 : fsT) (old new : bytes).
 Hypothesis Po : plain old.
 Hypothesis Pnw : plain new.
 Hypothesis Hon : old <> new.
 Hypothesis Hc0 : fs_clean f0.
+Hypothesis Hcl0 : closed f0.
 Hypothesis HLk : Links f0 f1.
+Hypothesis Hget : forall r, plains r -> fs_get f1 (pa (Lc ++ r)) = fs_get f0 (pa (Lc ++ r)).
 Hypothesis Hfree : forall r m, plains r -> r <> [] -> ~ In (pa (Lc ++ new :: r), m) f1.
-(* no stale temporary file in the directories that are rewritten *)
 Variable K : list bytes.
 Hypothesis HKp : forall k, In k K -> plain k /\ k <> old /\ k <> new.
-Hypothesis NS : forall x, x = old \/ In x K -> forall e0, In e0 f0 -> at_or_under (tmpp Lc x) (fst e0) = false.
 
 Lemma Hc1' : fs_clean f1.
 Proof. intros p m Hin. eapply Hc0. apply (proj1 HLk). exact Hin. Qed.
+Let G2 := mv (lp Lc old) (lp Lc new) f1.
+Lemma Ptmp : plains [lcf ++ tmp_suffix]. Proof. constructor; [apply plain_lcf_tmp|constructor]. Qed.
 
-Lemma no_tmp_in_F2 x : (x = new \/ In x K) -> forall e0, In e0 (mv (lp Lc old) (lp Lc new) f1) ->
-  at_or_under (tmpp Lc x) (fst e0) = false.
+Lemma F2_tmp_new : fs_get G2 (tmpp Lc new) = fs_get f0 (tmpp Lc old).
 Proof.
-  intros Hx [q nd] Hin. cbn [fst]. destruct (at_or_under (tmpp Lc x) q) eqn:Ea; [|reflexivity]. exfalso.
+  unfold G2, tmpp. change (Lc ++ [new; lcf ++ tmp_suffix]) with (Lc ++ new :: [lcf ++ tmp_suffix]).
+  rewrite (mv_get_new c Lc HLc HL old new Po Pnw Hon f1 Hc1' Hfree _ Ptmp).
+  change (Lc ++ old :: [lcf ++ tmp_suffix]) with (Lc ++ [old; lcf ++ tmp_suffix]).
+  apply Hget. constructor; [exact Po|exact Ptmp].
+Qed.
+Lemma F2_tmp_kid k : In k K -> fs_get G2 (tmpp Lc k) = fs_get f0 (tmpp Lc k).
+Proof.
+  intros Hk. destruct (HKp k Hk) as (Pk & Hko & Hkn). unfold G2.
+  rewrite (mv_get_other c Lc HLc HL old new Po Pnw f1 Hc1').
+  - unfold tmpp. apply Hget. constructor; [exact Pk|exact Ptmp].
+  - unfold tmpp. apply (not_under_other Lc HLc old k _ Po Pk Ptmp Hko).
+  - unfold tmpp. apply (not_under_other Lc HLc new k _ Pnw Pk Ptmp Hkn).
+Qed.
+
+Lemma under_tmp_shape x q : plain x -> is_clean_abs q = true -> under (tmpp Lc x) q = true ->
+  exists r, plains r /\ r <> [] /\ q = pa (Lc ++ x :: (lcf ++ tmp_suffix) :: r).
+Proof.
+  intros Px Hq Hu. apply clean_abs_repr in Hq as (qs & Pq & ->). unfold tmpp in Hu.
+  apply under_pa in Hu as (r & Hr & ->); [| |exact Pq].
+  - exists r. rewrite <- app_assoc. split; [apply plains_app in Pq as [_ Pq]; exact Pq|]. split; [exact Hr|reflexivity].
+  - apply plains_dirty; [exact HLc|exact Px|exact Ptmp].
+Qed.
+Lemma under_tmp_intro x r : plain x -> plains r -> r <> [] ->
+  under (tmpp Lc x) (pa (Lc ++ x :: (lcf ++ tmp_suffix) :: r)) = true.
+Proof.
+  intros Px Pr Hr. unfold tmpp. apply under_pa.
+  - apply plains_dirty; [exact HLc|exact Px|exact Ptmp].
+  - apply plains_dirty; [exact HLc|exact Px|constructor; [apply plain_lcf_tmp|exact Pr]].
+  - exists r. split; [exact Hr|now rewrite <- app_assoc].
+Qed.
+
+Lemma F2_no_under x : (x = new \/ In x K) -> tmp_ok Lc x G2 -> no_under (tmpp Lc x) G2.
+Proof.
+  intros Hx Hok [q nd] Hin. cbn [fst]. destruct (under (tmpp Lc x) q) eqn:Eu; [|reflexivity]. exfalso.
   assert (Px : plain x) by (destruct Hx as [->|Hx]; [exact Pnw|now apply HKp]).
   pose proof (mv_clean c Lc HLc HL old new Po Pnw f1 Hc1' _ _ Hin) as Hq.
-  destruct (tmpp_under_dir x q Px Hq Ea) as (r & Pr & ->).
+  destruct (under_tmp_shape x q Px Hq Eu) as (r & Pr & Hr & ->).
   apply (mv_in c Lc HLc HL old new Po Pnw f1 Hc1' Hfree) in Hin as [(H1 & H2 & H3)|(r' & Pr' & E & H3)].
   - destruct Hx as [->|Hx].
     + rewrite (at_under_same Lc HLc new _ Pnw) in H2; [discriminate|]. constructor; [apply plain_lcf_tmp|exact Pr].
-    + apply (proj1 HLk) in H3. pose proof (NS x (or_intror Hx) _ H3) as Hn. cbn [fst] in Hn.
-      unfold tmpp in Hn. assert (at_or_under (pa (Lc ++ [x; lcf ++ tmp_suffix])) (pa (Lc ++ x :: (lcf ++ tmp_suffix) :: r)) = true) as Ht; [|rewrite Ht in Hn; discriminate].
-      apply at_or_under_pa.
-      * apply plains_dirty; [exact HLc|exact Px|constructor; [apply plain_lcf_tmp|constructor]].
-      * apply plains_dirty; [exact HLc|exact Px|constructor; [apply plain_lcf_tmp|exact Pr]].
-      * exists r. now rewrite <- app_assoc.
+    + apply (proj1 HLk) in H3. unfold tmp_ok in Hok. rewrite (F2_tmp_kid x Hx) in Hok.
+      pose proof (no_under_tmp Lc HLc x f0 Px Hc0 Hcl0 Hok _ H3) as Hn. cbn [fst] in Hn.
+      rewrite (under_tmp_intro x r Px Pr Hr) in Hn. discriminate.
   - apply pa_inj in E.
-    + apply app_inv_head in E. pose proof (f_equal (@tl _) E) as E2. cbn [tl] in E2. subst r'.
-      apply (proj1 HLk) in H3. pose proof (NS old (or_introl eq_refl) _ H3) as Hn. cbn [fst] in Hn.
-      unfold tmpp in Hn. assert (at_or_under (pa (Lc ++ [old; lcf ++ tmp_suffix])) (pa (Lc ++ old :: (lcf ++ tmp_suffix) :: r)) = true) as Ht; [|rewrite Ht in Hn; discriminate].
-      apply at_or_under_pa.
-      * apply plains_dirty; [exact HLc|exact Po|constructor; [apply plain_lcf_tmp|constructor]].
-      * apply plains_dirty; [exact HLc|exact Po|constructor; [apply plain_lcf_tmp|exact Pr]].
-      * exists r. now rewrite <- app_assoc.
+    + apply app_inv_head in E. pose proof (f_equal (hd []) E) as E1. cbn [hd] in E1. subst x.
+      pose proof (f_equal (@tl _) E) as E2. cbn [tl] in E2. subst r'.
+      apply (proj1 HLk) in H3. unfold tmp_ok in Hok. rewrite F2_tmp_new in Hok.
+      pose proof (no_under_tmp Lc HLc old f0 Po Hc0 Hcl0 Hok _ H3) as Hn. cbn [fst] in Hn.
+      rewrite (under_tmp_intro old r Po Pr Hr) in Hn. discriminate.
     + apply plains_dirty; [exact HLc|exact Px|constructor; [apply plain_lcf_tmp|exact Pr]].
     + now apply plains_dirty.
 Qed.
 
-Lemma no_tmp_in_fold x L : (x = new \/ In x K) -> (forall p X, In (p, X) L -> exists j, plain j /\ p = cfgp Lc j) ->
-  forall e0, In e0 (foldwr L (mv (lp Lc old) (lp Lc new) f1)) -> at_or_under (tmpp Lc x) (fst e0) = false.
+Lemma chain_nu L g x : written Lc L G2 g -> (x = new \/ In x K) -> tmp_ok Lc x g -> no_under (tmpp Lc x) g.
 Proof.
-  intros Hx HL0 [q nd] Hin. cbn [fst].
+  intros HWr Hx Hok.
   assert (Px : plain x) by (destruct Hx as [->|Hx]; [exact Pnw|now apply HKp]).
-  apply In_foldwr in Hin as [Hin|(X & Hin & _)].
-  - exact (no_tmp_in_F2 x Hx _ Hin).
-  - destruct (HL0 _ _ Hin) as (j & Pj & ->). now apply tmpp_vs_cfgp.
+  assert (Hok2 : tmp_ok Lc x G2).
+  { destruct (wrt_tmp Lc HLc L G2 g HWr x Px) as [T1 T2]. destruct (assoc_dec L x) as [D|D]; [now apply T1|].
+    unfold tmp_ok in *. now rewrite <- (T2 D). }
+  pose proof (F2_no_under x Hx Hok2) as Hnu.
+  intros [q nd] Hin. cbn [fst]. apply (wrt_in Lc _ _ _ _ _ HWr) in Hin as [(k & X & Hk & ->)|[Hin _]].
+  - pose proof (wrt_plain Lc _ _ _ HWr _ _ Hk) as Pk. pose proof (tmpp_vs_cfgp x k Px Pk) as Hn.
+    unfold at_or_under in Hn. apply orb_false_iff in Hn as [_ Hn]. exact Hn.
+  - exact (Hnu _ Hin).
 Qed.
 End Run.
 Lemma rename_exact_post f0 e ld old new :
   fs_clean f0 -> nolink Lc f0 -> closed f0 -> NoDup (map fst f0) -> e_pretend e = false ->
-  (forall l', In l' (read_layer_files c f0) -> l_name l' = old \/ l_base l' = old ->
-     forall e0, In e0 f0 -> at_or_under (tmpp Lc (l_name l')) (fst e0) = false) ->
   LDI (skel (read_layer_files c f0)) ld -> check_inheritance (read_layer_files c f0) = true ->
   paths_ok c (ld_map ld) -> cores_ok c f0 (ld_map ld) ->
   post (fun w => w_fs w = f0) (rename_layer e c ld old new)
        (fun _ w' => C02.rename_exact c f0 (w_fs w') old new = true).
 Proof.
-  intros Hc0 Hn0 Hcl0 ND Hnp HNS [Hs HW] HCI HPa HCo. unfold rename_layer.
+  intros Hc0 Hn0 Hcl0 ND Hnp [Hs HW] HCI HPa HCo. unfold rename_layer.
   pose proof (allreach_gforest _ (check_inh_allreach _ HCI)) as HG. fold (G c f0) in HG.
   apply post_guard_k. intros G0. apply andb_true_iff in G0 as [G1 G2].
   apply test_name_need in G1 as (Ho & Lo & l & El). apply test_name_free in G2 as (Hn & Ln & Hfree0). rewrite El.
@@ -621,11 +773,6 @@ Proof.
   { intros l' Hl' E. pose proof (rlf_bcons c f0 l' Hl') as Hb. fold (G c f0) in Hb. rewrite E in Hb. congruence. }
   assert (HKp : forall k, In k K -> plain k /\ k <> old /\ k <> new).
   { intros k Hk. unfold K in Hk. apply in_map_iff in Hk as (k0 & <- & Hk0). destruct (Hkids k0 Hk0) as (H1 & H2 & H3 & _). auto. }
-  assert (NS : forall x, x = old \/ In x K -> forall e0, In e0 f0 -> at_or_under (tmpp Lc x) (fst e0) = false).
-  { intros x Hx. destruct Hx as [->|Hx].
-    - destruct Hl as (_ & l0 & H0 & N0 & _). rewrite <- N0. apply (HNS l0 H0). now left.
-    - unfold K in Hx. apply in_map_iff in Hx as (k0 & <- & Hk0). destruct (Hkids k0 Hk0) as (_ & _ & _ & _ & l0 & H0 & N0 & B0 & _).
-      rewrite <- N0. apply (HNS l0 H0). now right. }
   (* 1. export links *)
   eapply post_bind with (Q := fun _ w => Links f0 (w_fs w)).
   { eapply post_conseq; [apply post_of_hs, (links_keep e l old f0 Po Eno)| |]; cbv beta; auto.
@@ -636,6 +783,7 @@ Proof.
   eapply post_bind with (Q := fun _ w => exists f1, Links f0 f1 /\
       (forall r m, plains r -> r <> [] -> ~ In (pa (Lc ++ new :: r), m) f1) /\
       fs_get f1 (lp Lc old) = Some Dir /\ (forall nd, In (lp Lc new, nd) f1 -> nd = Dir) /\
+      (forall r, plains r -> fs_get f1 (pa (Lc ++ r)) = fs_get f0 (pa (Lc ++ r))) /\
       w_fs w = mv (lp Lc old) (lp Lc new) f1).
   { apply post_fix_world. intros w1 HL1. unfold fs_rename. apply post_do_op; [exact Hnp|].
     intros w w' -> E. cbn [op_result] in E. unfold on_fres in E.
@@ -659,7 +807,7 @@ Proof.
       pose proof (Hcl0 _ _ Em Hnr) as Hd. unfold cfgp in Hd. change (Lc ++ [old; lcf]) with (Lc ++ [old] ++ [lcf]) in Hd.
       rewrite app_assoc, pathdir_pa in Hd; [exact Hd|exact PO|apply plain_lcf]. }
     assert (Hna : na = Dir) by congruence.
-    exists f1. split; [now split|]. split; [|split; [exact Hold_dir|split; [|reflexivity]]].
+    exists f1. split; [now split|]. split; [|split; [exact Hold_dir|split; [|split; [exact Hget|reflexivity]]]].
     - intros r m Pr Hr Hin1. unfold lp in Hside. rewrite (Hget [new]) in Hside by (constructor; [exact Pnw|constructor]).
       destruct (fs_get f0 (pa (Lc ++ [new]))) as [[| |]|] eqn:En.
       + destruct Hside as [_ Hh]. unfold has_children in Hh.
@@ -676,53 +824,48 @@ Proof.
       rewrite (nodup_fs_get f0 _ nd ND Hin0) in Hside. destruct nd; [reflexivity| |]; subst na; now destruct Hside. }
   intros u2. cbv beta.
   (* 3. the children *)
-  apply post_fix_world. intros w2 (f1 & HLk & Hfr & HAd & HBd & Ew2).
-  assert (HKL : forall done p X, In (p, X) (KL Lc new done) -> (forall k, In k done -> In k kids) -> exists j, plain j /\ p = cfgp Lc j).
-  { intros done p X Hp Hd. apply (KL_in Lc new done) in Hp as (k & Hk & -> & _). exists (l_name k). split; [|reflexivity].
-    now destruct (Hkids k (Hd k Hk)). }
-  eapply post_bind with (Q := fun _ w => w_fs w = foldwr (KL Lc new kids) (mv (lp Lc old) (lp Lc new) f1)).
+  apply post_fix_world. intros w2 (f1 & HLk & Hfr & HAd & HBd & Hget1 & Ew2).
+  set (G2 := mv (lp Lc old) (lp Lc new) f1) in *.
+  eapply post_bind with (Q := fun _ w => written Lc (KLn new kids) G2 (w_fs w)).
   { eapply post_conseq;
-      [apply (post_mapM_ (fun done w => w_fs w = foldwr (KL Lc new done) (mv (lp Lc old) (lp Lc new) f1))
+      [apply (post_mapM_ (fun done w => written Lc (KLn new done) G2 (w_fs w))
                 (fun k => write_layerfile e (set_base k new)) kids)| |]; cbv beta; auto.
-    2:{ intros w ->. exact Ew2. }
-    intros done x rest Ek. apply post_fix_world. intros w3 Ew3.
+    2:{ intros w ->. rewrite Ew2. constructor. }
+    intros done x rest Ek. apply post_fix_world. intros w3 HW3.
     assert (Hxk : In x kids) by (fold kids; rewrite Ek; apply in_or_app; right; now left).
-    assert (Hdk : forall k, In k done -> In k kids) by (intros k Hk; fold kids; rewrite Ek; apply in_or_app; now left).
     destruct (Hkids x Hxk) as (Px & Hxo & Hxn & _). destruct (kids_sound _ _ _ _ Hxk) as [Hxm _].
-    eapply post_conseq; [apply (write_cfg_exact_gen c Lc HLc HL e (set_base x new) (l_name x) (w_fs w3) Hnp Px)| |]; cbv beta.
+    eapply post_conseq; [apply (write_cfg_lookup_gen c Lc HLc HL e (set_base x new) (l_name x) (w_fs w3) Hnp Px)| |]; cbv beta.
     - cbn [set_base l_path]. apply (HPa x Hxm).
-    - rewrite Ew3. apply (no_tmp_in_fold f0 f1 old new Po Pnw Hc0 HLk Hfr K HKp NS (l_name x)).
-      + right. unfold K. now apply in_map.
-      + intros p X Hp. now apply (HKL done p X Hp).
+    - apply (chain_nu f0 f1 old new Po Pnw Hon Hc0 Hcl0 HLk Hget1 Hfr K HKp (KLn new done) (w_fs w3) (l_name x) HW3).
+      right. unfold K. now apply in_map.
     - intros w ->. reflexivity.
-    - intros _ w ->. rewrite Ew3. unfold KL. rewrite map_app. cbn [map]. rewrite foldwr_snoc. reflexivity. }
+    - intros _ w HC. unfold KLn. rewrite map_app. cbn [map]. now apply (wrt_snoc Lc _ _ (w_fs w3)). }
   intros u3. cbv beta.
   (* 4. the renamed layer itself *)
   eapply post_bind; [apply post_renormalize|]. intros ld'. cbv beta.
-  eapply post_bind with (Q := fun _ w => w_fs w = F4 Lc old new f1 kids l).
-  { apply post_fix_world. intros w4 Ew4.
-    eapply post_conseq; [apply (write_cfg_exact_gen c Lc HLc HL e (set_name_path l new (lp Lc new)) new (w_fs w4) Hnp Pnw)| |]; cbv beta.
+  eapply post_bind with (Q := fun _ w => written Lc (KLn new kids ++ [(new, Xn Lc new l)]) G2 (w_fs w)).
+  { apply post_fix_world. intros w4 HW4.
+    eapply post_conseq; [apply (write_cfg_lookup_gen c Lc HLc HL e (set_name_path l new (lp Lc new)) new (w_fs w4) Hnp Pnw)| |]; cbv beta.
     - cbn [set_name_path l_path]. now rewrite (layer_path_eq c Lc HLc HL new Pnw).
-    - rewrite Ew4. apply (no_tmp_in_fold f0 f1 old new Po Pnw Hc0 HLk Hfr K HKp NS new); [now left|].
-      intros p X Hp. now apply (HKL kids p X Hp).
+    - apply (chain_nu f0 f1 old new Po Pnw Hon Hc0 Hcl0 HLk Hget1 Hfr K HKp (KLn new kids) (w_fs w4) new HW4). now left.
     - intros w ->. reflexivity.
-    - intros _ w ->. rewrite Ew4. reflexivity. }
-  intros u4. cbv beta. apply post_ret. intros w ->.
+    - intros _ w HC. now apply (wrt_snoc Lc _ _ (w_fs w4)). }
+  intros u4. cbv beta. apply post_ret. intros w HWf.
   destruct HLk as [L1 L2].
   apply (rename_exact_final c Lc HLc HL old new Po Pnw Hon f0 f1 kids l ND Hc0 Hn0 L1 L2 Hfr HAd HBd Hnew_free
-           (legal_tok new Ln Hn) Hkids Hkids_all Hl).
+           (legal_tok new Ln Hn) Hkids Hkids_all Hl (w_fs w) HWf).
 Qed.
 End E2.
 
 Theorem rename_exact_run e c um a b0 s :
   cfg_ok c = true -> fs_ok c (w_fs (s_w s)) = true -> LC.nodup_paths (map fst (w_fs (s_w s))) = true ->
-  no_stale_tmp c (w_fs (s_w s)) (CRename a b0) = true -> e_pretend e = false ->
+  e_pretend e = false ->
   match run_command e c um (CRename a b0) s with
   | (Ret _, s') => C02.rename_exact c (w_fs (s_w s)) (w_fs (s_w s')) a b0 = true
   | _ => True
   end.
 Proof.
-  intros Hcfg Hfs Hnd Hst Hnp.
+  intros Hcfg Hfs Hnd Hnp.
   destruct (cfg_ok_spec c Hcfg) as (Lc & bsr & wsr & usr & Ec & bpr & gpr & Bc & PL & EL & _ & _ & _ & HE & HBP & HGP & _).
   destruct (fs_ok_spec c Lc _ PL EL Hfs) as (Hc0 & Hn0 & Hcl0).
   cbn [run_command].
@@ -732,23 +875,5 @@ Proof.
   eapply post_conseq;
     [apply (rename_exact_post c Lc PL EL Ec bpr gpr HE HBP HGP (w_fs (s_w s)) e ld a b0 Hc0 Hn0 Hcl0)| |]; cbv beta; auto.
   - now apply nodup_paths_NoDup.
-  - intros l' Hl' Hab [p m] Hin. cbn [fst].
-    cbn [no_stale_tmp] in Hst. unfold C02.layers_of in Hst. rewrite forallb_forall in Hst. specialize (Hst l' Hl').
-    apply negb_true_iff in Hst.
-    assert (Eab : (beq (l_name l') a || beq (l_base l') a) = true).
-    { apply orb_true_iff. destruct Hab as [<-|<-]; [left|right]; apply beq_refl. }
-    rewrite Eab in Hst. cbn [andb] in Hst.
-    (* the layer's name is a plain component, its layerconfig path is the canonical one *)
-    pose proof (rlf_bcons c _ l' Hl') as Hb. fold (G c (w_fs (s_w s))) in Hb.
-    destruct (G_some_child c Lc PL EL _ _ _ Hc0 Hn0 Hb) as (Pn & _).
-    rewrite (layerconfig_path_eq c Lc PL EL l' (l_name l') (rlf_paths c _ l' Hl') Pn), tmp_path_eq in Hst.
-    assert (Htmp : fs_get (w_fs (s_w s)) (tmpp Lc (l_name l')) = None).
-    { unfold exists_, lstat in Hst. destruct (fs_get (w_fs (s_w s)) (tmpp Lc (l_name l'))); [discriminate|reflexivity]. }
-    destruct (at_or_under (tmpp Lc (l_name l')) p) eqn:Ea; [|reflexivity]. exfalso.
-    destruct (tmpp_under_dir Lc PL (l_name l') p Pn (Hc0 _ _ Hin) Ea) as (r & Pr & ->).
-    assert (PT : plains (Lc ++ [l_name l'; lcf ++ tmp_suffix])).
-    { apply plains_dirty; [exact PL|exact Pn|constructor; [apply plain_lcf_tmp|constructor]]. }
-    pose proof (closed_none _ _ Hcl0 PT Htmp r Pr) as En. rewrite <- app_assoc in En.
-    apply (proj1 (fs_get_None _ _) En m Hin).
   - intros w ->. reflexivity.
 Qed.
